@@ -141,6 +141,9 @@ func complement[T constraints.Integer](intv Interval[T], sub []Interval[T]) ([]I
 	}
 
 	intvs = append(intvs, intv)
+	if cnt == 0 {
+		return intvs, 0
+	}
 	return intvs, cnt - 1
 }
 
